@@ -118,7 +118,7 @@ def run_case(case):
         gf_other = None
         if case.get("library_rb"):
             # a long-time family computed (tabulated) for another borehole radius than the exchanger's: the simulation corrects for it
-            gf_other = ghe_factory.table_gfunction(coords, 5.0 if len(coords) > 1 else 0.075, [60.0, 97.5, 135.0], case["library_rb"])
+            gf_other = ghe_factory.table_gfunction(coords, 5.0 if len(coords) > 1 else 0.075, case.get("library_heights", [60.0, 97.5, 135.0]), case["library_rb"])
         ghe = ghe_factory.make_ghe(coords, pipe=case["pipe"], H=case["H"], loads=loads, months=case.get("months", 12), load_years=case.get("load_years"), gfunc=gf_other,
                                    **({"rb": case["rb"]} if case.get("rb") else {}))
         captured = {}
@@ -249,6 +249,7 @@ def main(run: core.Run, only=None):
     cases.append({"kind": "tables", "field": "1", "coords": [list(c) for c in FIELDS["1"]], "loads": "office", "pipe": "coaxial", "H": 100.0, "months": 36, "hourly_first": True, "load_years": [2020]})
     cases.append({"kind": "tables", "field": "2x2", "coords": [list(c) for c in FIELDS["2x2"]], "loads": "index", "pipe": "single", "H": 100.0, "library_rb": 0.075, "rb": 0.055})
     cases.append({"kind": "tables", "field": "irregular", "coords": [list(c) for c in FIELDS["irregular"]], "loads": "office", "pipe": "coaxial", "H": 90.0, "library_rb": 0.06, "rb": 0.075})
+    cases.append({"kind": "tables", "field": "2x2", "coords": [list(c) for c in FIELDS["2x2"]], "loads": "index", "pipe": "single", "H": 100.0, "library_rb": 0.075, "rb": 0.06, "library_heights": [100.0]})
     cases.append({"kind": "tables", "field": "2x2", "coords": [list(c) for c in FIELDS["2x2"]], "loads": "index", "pipe": "single", "H": 100.0,
                   "history": [{"coords": [list(c) for c in FIELDS["irregular"]], "loads": "office"}]})
     cases.append({"kind": "tables", "field": "L", "coords": [list(c) for c in FIELDS["L"]], "loads": "office", "pipe": "single", "H": 73.0,
@@ -258,6 +259,7 @@ def main(run: core.Run, only=None):
     run.drive(cases, family="tables")
     real = [{"engine": "B", "method": "nearsquare", "pipe": "single", "flow": "borehole", "load": "office"},
             {"engine": "B", "method": "nearsquare", "pipe": "single", "flow": "borehole", "load": "one_borehole", "months": 12},
+            {"engine": "B", "method": "rowwise", "pipe": "single", "flow": "borehole", "load": "one_borehole", "months": 12},
             {"engine": "B", "method": "rowwise", "pipe": "coaxial", "flow": "system", "load": "mirror"}]
     if not quick:
         real += [{"engine": "B", "method": mth, "pipe": p, "flow": "borehole", "load": "spiky", "months": 37} for mth, p in
